@@ -274,7 +274,13 @@ class Module(object):
                 raise ReaderError('wire or output with several drivers: %s' % n)
 
     # ---- Coq term
-    def coq(self, idmap):
+    def same_but_reset(self, other):
+        """equal in everything except the reset structure (mode, reset branch, rst port)"""
+        f = lambda m: (m.inputs, m.outputs, m.regs, m.wires, m.mems, m.roms, m.assigns, m.memrds, m.updates,
+                       m.memwrs)
+        return f(self) == f(other)
+
+    def coq(self, idmap, only_mode_resets=False):
         def z(v):
             return str(v) if v >= 0 else '(%d)' % v
 
@@ -306,6 +312,8 @@ class Module(object):
         def items(l):
             return '[' + '; '.join('(%d, %s)' % (idmap[n], ex(e)) for n, e in l) + ']'
 
+        if only_mode_resets:
+            return {'none': 'RNone', 'sync': 'RSync', 'async': 'RAsync'}[self.mode], items(self.resets)
         mode = {'none': 'RNone', 'sync': 'RSync', 'async': 'RAsync'}[self.mode]
         mems = '[' + '; '.join('(%d, (%d, %d))' % t for t in self.mems) + ']'
         roms = '[' + '; '.join('(%d, [%s])' % (i, '; '.join('(%d, %s)' % (a, ex(e)) for a, e in tab))
